@@ -600,6 +600,62 @@ func c20(c *core.Ctx) {
 		c.EndRule()
 	}
 
+	// ---------------------------------------------------------------- R5
+	if c.Rule("R5", "a blocked sender is released when the peer finishes: the function that writes the final frames signals completion (the CancelFunc every client send selects on) before its first blocking frame write, not in a defer (shared with C05/R7)", 1) {
+		var fns []*ssa.Function
+		fns = append(fns, p.LibFuncs("inprocgrpc")...)
+		c05DoneBeforeFinalWrites(c, fns)
+		c.EndRule()
+	}
+
+	// ---------------------------------------------------------------- R6
+	if c.Rule("R6", "the receiver does not read ahead of the application: in the receive path of the in-process client stream a frame taken from the channel is parked in the peek slot only if it cannot be a data frame (error frames are re-parked so that later calls see them); every frame receive there is blocking", 1) {
+		kinds := frameKinds(p)
+		n := 0
+		for _, nt := range streamTypes(p, "ClientStream", "RecvMsg") {
+			if pkgSuffixOf(nt) != "inprocgrpc" {
+				continue
+			}
+			tn := nt.Obj().Name()
+			for _, fn := range methodFamily(p, nt, "RecvMsg") {
+				core.Instrs(fn, func(in ssa.Instruction) {
+					switch x := in.(type) {
+					case *ssa.Select:
+						for _, st := range x.States {
+							if st.Dir == types.RecvOnly && isFrameChan(st.Chan.Type()) && !x.Blocking {
+								n++
+								c.Fail(core.FuncName(fn)+":non-blocking-frame-receive", x.Pos(), "the receive path polls the frame channel without blocking: it takes a frame the application has not asked for yet (an extra buffer slot: the sender gets one more message ahead)")
+							}
+						}
+					case *ssa.Store:
+						if core.IsNilConst(x.Val) {
+							return
+						}
+						base, fld, isF := core.FieldOf(x.Addr)
+						if !isF || core.NamedOf(base.Type()) != tn {
+							return
+						}
+						if pt, ok := x.Val.Type().Underlying().(*types.Pointer); !ok || core.NamedOf(pt.Elem()) != "frame" {
+							return
+						}
+						possible, isRecv := parkedKinds(kinds, x)
+						if !isRecv {
+							return
+						}
+						n++
+						_, canData := possible["data"]
+						c.Check(!canData, core.FuncName(fn)+":park("+fld+"):not-data", x.Pos(), fmt.Sprintf("a frame parked by the receive path has kind %v: never a message", keysOfI(possible)),
+							"the receive path can park a data frame in the peek slot "+fld+": a message is taken out of the channel before the application asks for it, so the sender runs one more message ahead (k+2 completed sends after k receives)")
+					}
+				})
+			}
+		}
+		if n == 0 {
+			c.Fail("inprocgrpc:peek-slot", token.NoPos, "ANCHOR-MISSING: the in-process client stream's receive path parks no received frame (expected: the error frame)")
+		}
+		c.EndRule()
+	}
+
 	// ---------------------------------------------------------------- R3
 	if c.Rule("R3", "pending header frames do not add a slot: the header frame is written to the same channel field under the same lock as the data frame", 1) {
 		for _, nt := range streamTypes(p, "ServerStream", "RecvMsg") {
